@@ -93,6 +93,24 @@ def run(prog: Program, res: Result) -> None:
     if not okr:
         bad("R1-row-records-point", rows[0] if rows else loop, "the result row does not record the grid point that was evaluated",
             key="hypertuner.HyperTuner.execute::row-params")
+    # the table is built from rows collected in THIS call only: a fresh list per execute(), handed to DataFrame
+    acc = rows[0].func.value.id if rows and isinstance(rows[0].func.value, ast.Name) else None
+    fresh = False
+    if acc:
+        defs = [st for st in ex.node.body if isinstance(st, (ast.Assign, ast.AnnAssign)) and st.lineno < loop.lineno
+                and any(isinstance(t, ast.Name) and t.id == acc for t in (st.targets if isinstance(st, ast.Assign) else [st.target]))]
+        fresh = len(defs) == 1 and isinstance(defs[0].value, ast.List) and not defs[0].value.elts
+        others = [n for n in own_nodes(ex) if isinstance(n, ast.Name) and n.id == acc and isinstance(n.ctx, ast.Store)]
+        fresh = fresh and len(others) == 1
+    dfs = [n for n in own_nodes(ex) if isinstance(n, ast.Assign) and dotted(n.targets[0]) == "self._df_fit" and isinstance(n.value, ast.Call)
+           and dotted(n.value.func) in ("pd.DataFrame", "pandas.DataFrame") and n.value.args and dotted(n.value.args[0]) == acc]
+    okt = fresh and len(dfs) == 1 and dfs[0].lineno > loop.end_lineno
+    res.ob(okt, f"{mod.relpath}: `{acc}` is a fresh list per execute() and is what _df_fit is built from", "fresh-rows")
+    if not okt:
+        bad("R1-rows-of-this-call-only", rows[0] if rows else loop,
+            f"the score table is not built from a list created empty in this execute() call (`{acc}`): rows of an earlier call "
+            f"(another task, another grid) are ranked together with this call's grid points",
+            key="hypertuner.HyperTuner.execute::fresh-rows")
     # the map ranges over n_trials items and calls __run__
     if len(maps) == 1:
         m = maps[0]
@@ -356,6 +374,8 @@ VARIANTS = [
     V("trials-one-short", _H, "list(range(0, n_trials))", "list(range(1, n_trials))", "C19.R2"),
     V("row-records-previous-point", _H, "best_fit_results.append({\"params\": params})", "best_fit_results.append({\"params\": list_params_grid[id_params - 1]})", "C19.R1"),
     V("resolve-skips-best", _H, "        self._algorithm.set_config_parameters(self.best_parameters)\n        return self._algorithm.optimize(task=self._problem", "        return self._algorithm.optimize(task=self._problem", "C19.R5"),
+    V("rows-accumulate-on-instance", _H, "        best_fit_results = []\n", "        best_fit_results = self._rows_cache\n", "C19.R1",
+      more=[(_H, "        self._df_loss: pd.DataFrame | None = None\n", "        self._df_loss: pd.DataFrame | None = None\n        self._rows_cache = []\n")]),
     V("grid-truncated", _H, "list_params_grid = list(ParameterGrid(self._param_grid))", "list_params_grid = list(ParameterGrid(self._param_grid))[:-1]", "C19.R1"),
     V("rank-by-std-first", _H, "self._df_fit[[\"rank_mean\", \"rank_std\"]]", "self._df_fit[[\"rank_std\", \"rank_mean\"]]", "C19.R3"),
     V("cost-in-wrong-column", _H, "best_fit_results[-1][trial_columns[idx]] = g_best.cost", "best_fit_results[-1][trial_columns[0]] = g_best.cost", "C19.R2"),
